@@ -162,6 +162,12 @@ func c17Component(r *vkit.Report, name string, proofPtr any, honest []*big.Int, 
 				mut{"+order<<256", new(big.Int).Add(orig, new(big.Int).Lsh(c17Order, 256))},
 				mut{"+2^256", new(big.Int).Add(orig, new(big.Int).Lsh(big.NewInt(1), 256))})
 		}
+		if strings.Contains(lf.path, "RangeProof") && !strings.Contains(lf.path, "hider") && c17Order != nil {
+			// responses for the range-limited secret of a range proof (not its hider, which is unbounded): a shift by the group order leaves every reconstructed commitment as
+			// it was, so the size bound on the response - what makes it a range proof - must be what rejects it
+			// (the bound is a bit length a little above that of honest responses: shift far beyond it)
+			muts = append(muts, mut{"+order<<(len+64)", new(big.Int).Add(orig, new(big.Int).Lsh(c17Order, uint(orig.BitLen())+64))})
+		}
 		if li+1 < len(leaves) {
 			if nx := leaves[li+1].get(); nx != nil && nx.Cmp(orig) != 0 {
 				muts = append(muts, mut{"=next-leaf", new(big.Int).Set(nx)})
@@ -327,9 +333,9 @@ func c17Degenerate(r *vkit.Report, name string, P *big.Int, ptrs []any, verify f
 }
 
 func TestVerifC17Components(t *testing.T) {
-	r := vkit.Start(t, "C17", "zk-components", 240*time.Second, 1200*time.Second)
+	r := vkit.Start(t, "C17", "zk-components", 600*time.Second, 1200*time.Second)
 	defer r.Finish()
-	r.Rule = "components {pedersen, addition, multiplication, exp (with its exp-step OR-compositions, both bit values), prime, is-square} on toy groups: honest instance, then EVERY exported big-integer leaf of the proof x {+1, -1, =0, =nil, =next leaf; for sub-challenges of OR-compositions also +order, +order*2^256, +2^256}; non-trivial = distinct (component, leaf, alteration) that changes the value; oracle: honest => structure ok and commitments-from-proof == commitments-from-secrets; altered => structure check fails or the reconstructed list differs"
+	r.Rule = "components {pedersen, addition, multiplication, exp (with its exp-step OR-compositions, both bit values), prime, is-square} on toy groups: honest instance, then EVERY exported big-integer leaf of the proof x {+1, -1, =0, =nil, =next leaf; for sub-challenges of OR-compositions also +order, +order*2^256, +2^256; for range-proof responses of the range-limited secret also +order*2^(len+64), far beyond the size bound}; non-trivial = distinct (component, leaf, alteration) that changes the value; oracle: honest => structure ok and commitments-from-proof == commitments-from-secrets; altered => structure check fails or the reconstructed list differs"
 	ch := big.NewInt(12345)
 	common.VerifSeedCPRNG([32]byte{17, 17, 17})
 	// a 40-bit safe-prime group: with the 23-element group of the package's own tests a changed
@@ -563,7 +569,7 @@ func c17Answer(kind string, N, c *big.Int) *big.Int {
 }
 
 func TestVerifC17Gennaro(t *testing.T) {
-	r := vkit.Start(t, "C17", "gennaro-components", 240*time.Second, 1200*time.Second)
+	r := vkit.Start(t, "C17", "gennaro-components", 600*time.Second, 1200*time.Second)
 	defer r.Finish()
 	r.Rule = "square-free / prime-power-product / disjoint-prime-product / almost-safe-prime-product proofs: honest on a good toy modulus; for EVERY iteration index a proof valid everywhere but there (response +1; ASPP also commitment and nonce); wrong challenge and wrong index; bad moduli {p^2 q, p q r, p q^3, p q with gcd(N,phi)>1, prime N} with a best-effort cheating prover whose per-iteration answers are found by exhaustive search over Z_N using an independently written relation; non-trivial = distinct (proof kind, modulus, iteration / challenge); oracle: verify accepts iff every iteration is answerable per the reference relation"
 	// good toy modulus: safe primes with CanProve
